@@ -322,7 +322,7 @@ static void cmd_find(char *line, int flg, int nsub, int which)
 }
 
 /* ---- C11: exhaustive pattern strings, range/boundary monitor in C ---- */
-static char *c11_lines[] = {"\n", "a\n", "aa1,9\n", "ab(a)[a]{1}\n", "\xc3\xa9" "a\xe2\x82\xac" "a\n", "a|b*+?^$.-:\\\n", "aaaaaaaaaaaaaaaaaaaa\n"};
+static char *c11_lines[] = {"\n", "a\n", "aa1,9\n", "ab(a)[a]{1}\n", "\xc3\xa9" "\xc3\xa8" "a\xe2\x82\xac" "\xe2\x82\xad" "a\xf0\x9f\x98\x80" "\xf0\x9f\x98\x81" "a\n", "a|b*+?^$.-:\\\n", "aaaaaaaaaaaaaaaaaaaa\n"};
 
 static long c11_npat, c11_ncomp, c11_nmatch, c11_nanom, c11_nrstr, c11_ncut;
 
